@@ -63,7 +63,7 @@ Section Spec.
   Definition a_report_gen (count : bool) (st : astate) (now : Z) : astate * rrep :=
     let delay := match a_lsr_time st with None => 0 | Some t => dk (dur_sub now t) end in
     match a_hi st with
-    | None => (st, (0, a_lsr st, 0, 0, delay mod 4294967296, jout (a_jit st) mod 4294967296))
+    | None => (st, (0, a_lsr st, 0, Z.min 16777215 (a_cum st), delay mod 4294967296, jout (a_jit st) mod 4294967296))
     | Some H =>
         let expected := H - a_prev st in
         (* lost = expected - received-in-interval, by recount: the numbers
